@@ -1385,6 +1385,12 @@ class Extractor:
                 snaps = [self.snapshot(x, fr) for x in av.elts]
                 for t, x in zip(target.elts, snaps):
                     self.assign(t, x, fr)
+            elif (isinstance(av.const, Const) and isinstance(av.const.v, (list, tuple)) and len(av.const.v) == n
+                  and not any(isinstance(t, ast.Starred) for t in target.elts)
+                  and all(isinstance(v, (str, int, float, bool, type(None))) for v in av.const.v)):
+                # unpacking a known constant sequence (`units_in, units_out = units` with units=["deg", "deg"])
+                for t, v in zip(target.elts, av.const.v):
+                    self.assign(t, AV(const=Const(v)), fr)
             else:
                 for t in target.elts:
                     self.assign(t.value if isinstance(t, ast.Starred) else t, AV(av.alias, kind=av.kind), fr)
